@@ -1,2 +1,12 @@
 #!/bin/sh
-exit 0
+# Build the conformance harness (offline, path dependencies on /repo) and parse every TLA+ module.
+set -e
+cd "$(dirname "$0")"
+export CARGO_NET_OFFLINE=true
+(cd harness && cargo build --release --offline --workspace 2>&1 | tail -3)
+cd spec
+for m in *.tla; do
+  tla-sany "$m" > /tmp/sany.$$ 2>&1 || { cat /tmp/sany.$$; rm -f /tmp/sany.$$; echo "SANY failed on $m"; exit 1; }
+done
+rm -f /tmp/sany.$$
+echo setup ok
